@@ -80,11 +80,14 @@ def main():
     # ---- dispatch: every name on several coded vector pairs, with the dtypes the pipeline produces (int8/int16 codes)
     n_pairs = 25 if quick else 250
     for p in range(n_pairs):
-        n = int(rng.integers(5, 80))
-        card = int(rng.choice([2, 3, 10, 200]))
-        dt = np.int8 if card < 100 else np.int16
-        v2 = rng.integers(0, 3, n).astype(dt)
-        v1 = ((v2 + rng.integers(0, card, n)) % card).astype(dt)
+        n = int(rng.integers(5, 400))
+        card = int(rng.choice([2, 3, 10, 20, 60, 100, 120, 200, 1000]))
+        card2 = int(rng.choice([2, 3, 5, 20, 100]))
+        # the dtypes pandas gives category codes: int8 below 128 categories, int16 below 32768
+        dt = np.int8 if card < 128 else np.int16
+        dt2 = np.int8 if card2 < 128 else np.int16
+        v2 = rng.integers(0, card2, n).astype(dt2)
+        v1 = ((v2.astype(np.int64) + rng.integers(0, card, n)) % card).astype(dt)
         if p % 7 == 0:
             v1 = v2.copy()
         for name in sorted(set(table) | set(docs)):
